@@ -112,7 +112,7 @@ if __name__ == "__main__":
     names = [a for a in args if not a.startswith("--")] or sorted(n for n in os.listdir(os.path.join(HERE, "seeded")) if os.path.isdir(os.path.join(HERE, "seeded", n)))
     if "--skip-done" in sys.argv:
         names = [n for n in names if not os.path.exists(os.path.join(HERE, "seeded", n, "meta.json"))]
-    names = [n for n in names if not n.startswith("own_") or CHECK_ONLY]
+    names = [n for n in names if not n.startswith("own_")]
     if half is not None:
         names = names[half::2]
     for n in names:
